@@ -27,6 +27,8 @@ def run(ctx):
         lf = df.add_logical_file()
         lf.add_origin('O', file_set_number=1, creation_time='2020/01/01 00:00:00')
         chans, items = [], []
+        arrays_by_name = {}
+        src_kind = rng.choice(['inline', 'inline', 'struct', 'dict'])
         nch = rng.randrange(1, 5)
         expect_err = False
         for j in range(nch):
@@ -56,10 +58,11 @@ def run(ctx):
                         expect_err = True
             c['mode'] = mode
             arr = datagen.physical_array(c)
-            items.append(lf.add_channel(c['name'], data=arr, cast_dtype=getattr(np, c['cast']) if c['cast'] else None, **kw))
+            arrays_by_name[c['name']] = arr
+            items.append(lf.add_channel(c['name'], data=arr if src_kind == 'inline' else None, cast_dtype=getattr(np, c['cast']) if c['cast'] else None, **kw))
             chans.append(c)
         frames = [('F1', list(range(nch)))]
-        extra = rng.choice(['none', 'none', 'shared', 'alias', 'orphan'])
+        extra = rng.choice(['none', 'none', 'shared', 'alias', 'orphan']) if src_kind == 'inline' else 'none'
         if extra == 'shared' and nch >= 2:
             frames.append(('F2', [0, nch - 1]))
         for fname, idxs in frames:
@@ -72,7 +75,16 @@ def run(ctx):
             chans.append(c0); frames.append(('F3', [len(chans) - 1]))
         if extra == 'orphan':
             lf.add_channel('ORPHAN', data=np.zeros((rows, 2), dtype=np.uint8))
-        o = impl.outcome(lambda: impl.write_real(df))
+        wdata = None
+        if src_kind == 'dict':
+            wdata = dict(arrays_by_name)
+        elif src_kind == 'struct':
+            fields = [(c['name'], arrays_by_name[c['name']].dtype) if c['width'] is None else (c['name'], arrays_by_name[c['name']].dtype, (c['width'],)) for c in chans]
+            wdata = np.zeros(rows, dtype=np.dtype(fields))
+            for c in chans:
+                wdata[c['name']] = arrays_by_name[c['name']]
+        o = impl.outcome(lambda: impl.write_real(df, data=wdata))
+        ctx.stat('K-descr', 'source_' + src_kind)
         ctx.count('K-descr', key=tuple((c['dtype'], c['width'], c['cast'], str(c['udim']), str(c['uelim'])) for c in chans) + (extra,))
         ctx.stat('K-descr', 'extra_' + extra)
         for c in chans:
